@@ -487,6 +487,10 @@ func Run(r *core.Run) {
 				tampered = append(tampered, L[:len(L)-1]+string(ch))
 			}
 		}
+		// something behind the initial state that a DID URL parser would take for a fragment, query or path: the string is not the DID
+		for _, tail := range []string{"#", "?", "/", "#key-1", "?service=hub", "/path", "?versionId=1#key-1", ";x", "%23", " "} {
+			tampered = append(tampered, L+tail)
+		}
 		// suffix of another document, re-encodings, short form
 		parts := strings.Split(L, ":")
 		state, suffix := parts[3], parts[2]
@@ -547,6 +551,14 @@ func Run(r *core.Run) {
 			det := M{"did": s, "well_formed": ok, "exact_form": exact}
 			if resolves && !ok {
 				return &core.Fail{Key: classify(s), What: "a DID that is not a well-formed long-form DID of this namespace resolves: " + trunc(s), Detail: det}
+			}
+			// the VDR front end answers as the handler does (it must not repair, cut or re-spell what it is given)
+			if rd, e3 := vdr.Read(s); (e3 == nil) != resolves {
+				got := "an error: " + fmt.Sprint(e3)
+				if e3 == nil {
+					got = "a document with id " + trunc(rd.DIDDocument.ID)
+				}
+				return &core.Fail{Key: "vdr-handler-disagree/" + classify(s), What: fmt.Sprintf("VDR.Read gives %s where the document handler says resolves=%v: %s", got, resolves, trunc(s)), Detail: det}
 			}
 			if !resolves && ok && exact {
 				return &core.Fail{Key: "refused-well-formed", What: fmt.Sprintf("well-formed long-form DID refused (%v): %s", e1, trunc(s)), Detail: det}
